@@ -51,6 +51,9 @@ func genC05(tier string, seed int64) []Case {
 		if d.Kind == "latehelper" {
 			run = func(c *Ctx) { runC05LateHelper(c, d) }
 		}
+		if d.Kind == "latedone" {
+			run = func(c *Ctx) { runC05LateDone(c, d) }
+		}
 		cases = append(cases, Case{ID: d.id(), Class: d.Kind + "/" + d.Phase + d.Hook, Desc: d, Timeout: 90 * time.Second, Run: run})
 	}
 	Ts := []int64{150, 300}
@@ -95,6 +98,11 @@ func genC05(tier string, seed int64) []Case {
 	}
 	// several expiries on ONE instance: every timeout must be answered, torn down and
 	// followed by a fresh environment, not only the first one of a process lifetime
+	// the invocation completes in time as far as the runtime and the orchestrator are concerned, but the goroutine that
+	// reports the completion loses the CPU until the timeout has fired and its reset is over
+	for nExt := 0; nExt <= 1; nExt++ {
+		add(c05Desc{Kind: "latedone", Who: "rt", NExt: nExt, T: 300})
+	}
 	// the invocation expires while still waiting for a hung initialisation; the goroutine that waited on its behalf
 	// gets to act on the failed initialisation only after the reset AND the next (healthy) invocation are over
 	for nExt := 0; nExt <= 1; nExt++ {
@@ -634,6 +642,72 @@ func runC05LateHelper(c *Ctx, d c05Desc) {
 	c.Check(len(w.E.Sup.Procs()) == nProcs, "stable_afterwards", "C05/late-helper-churn/"+cls, "processes were started after the healthy invocation that followed the expired one: its environment was torn down behind its back", fmt.Sprintf("%d -> %d", nProcs, len(w.E.Sup.Procs())))
 	c.SetHooks(w.Hk.Arrived())
 	c.SetTrace(cls+fmt.Sprint(d.NExt)+vh.ErrName(third.Err), true)
+	c.SetInterleaving(cls)
+	if c.WantSample || c.Violated() {
+		c.SetSample(sampleLog(w, 200))
+	}
+}
+
+// runC05LateDone: the runtime answers at once and returns to next - the invocation is complete - but the goroutine that
+// posts the completion is held (pause point fastInvoke.successSeen) until the timeout has fired and the reset it
+// requests is over. The completion it then reports belongs to an invocation that no longer exists: it must not be taken
+// for the outcome of the next one.
+func runC05LateDone(c *Ctx, d c05Desc) {
+	exts := []string{}
+	for i := 0; i < d.NExt; i++ {
+		exts = append(exts, fmt.Sprintf("ext%d", i))
+	}
+	w, err := NewWorld(vh.Config{TimeoutMs: d.T, Extensions: exts})
+	if err != nil {
+		c.Inconclusive("harness: " + err.Error())
+		return
+	}
+	defer w.Close()
+	respBody := func(ev []byte) []byte { return append([]byte("RESP:"), ev...) }
+	w.RtPlan = func(gen int, p *vh.Proc) vh.ExecPlan {
+		return vh.ExecPlan{Behave: w.RtLoop(RtOpts{Handle: func(p *vh.Proc, pt *vh.Party, n int, ev *vh.Resp) *vh.Exit {
+			pt.Respond(ev.ReqID(), respBody(ev.Body), nil)
+			return nil
+		}})}
+	}
+	w.ExtPlan = func(base string, gen int, p *vh.Proc) vh.ExecPlan {
+		return vh.ExecPlan{Behave: w.ExtLoop(ExtOpts{Events: []string{"INVOKE", "SHUTDOWN"}})}
+	}
+	cls := "latedone"
+	w.E.Init()
+	w.Hk.Hold("fastInvoke.successSeen", 0)
+	first := w.E.InvokeAsync([]byte("event-1"), vh.InvokeOpts{})
+	if !first.Wait(time.Duration(d.T)*time.Millisecond + 12*time.Second) {
+		c.Check(false, "bounded_answer", "C05/hang/"+cls, "the invocation whose completion report was delayed was never answered", nil)
+		c.SetSample(sampleLog(w, 200))
+		return
+	}
+	if !w.Hk.WaitHeld("fastInvoke.successSeen", 3*time.Second) {
+		c.Inconclusive("hook fastInvoke.successSeen not reached")
+		return
+	}
+	// either outcome is the platform's to choose (the answer was delivered, the completion was not reported in time)
+	o1 := vh.ErrName(first.Err)
+	c.Check(o1 == "timeout" || o1 == "ok", "timeout_outcome", "C05/outcome/"+cls+"/"+o1, "unexpected outcome of the invocation whose completion report was delayed", nil)
+	w.Hk.Release("fastInvoke.successSeen")
+	time.Sleep(30 * time.Millisecond)
+	w.E.Srv.SetInvokeTimeout(5 * time.Second)
+	for i, ev := range []string{"event-2", "event-3"} {
+		inv := w.E.InvokeAsync([]byte(ev), vh.InvokeOpts{})
+		if !inv.Wait(12 * time.Second) {
+			c.Check(false, "next_healthy", "C05/next-hangs/"+cls, "an invocation after the delayed completion report never returned", ev)
+			c.SetSample(sampleLog(w, 200))
+			return
+		}
+		ok := inv.Err == nil && bytes.Equal(inv.W.Body(), respBody([]byte(ev)))
+		clause, sig := "next_healthy", "C05/next-fails/"+cls
+		if i == 1 {
+			clause, sig = "stable_afterwards", "C05/third-fails/"+cls
+		}
+		c.Check(ok, clause, sig, fmt.Sprintf("the invocation %q after a delayed completion report ended %q with body %s", ev, vh.ErrName(inv.Err), trunc(inv.W.Body())), nil)
+	}
+	c.SetHooks(w.Hk.Arrived())
+	c.SetTrace(cls+fmt.Sprint(d.NExt)+o1, true)
 	c.SetInterleaving(cls)
 	if c.WantSample || c.Violated() {
 		c.SetSample(sampleLog(w, 200))
